@@ -65,7 +65,7 @@ Proof.
   rewrite <- app_assoc.
   rewrite firstn_app_exact, skipn_app_exact by apply length_be.
   unfold bytes_to_int. rewrite unbe_be by (change (256 ^ Z.of_nat 4) with 4294967296; lia).
-  cbn [app]. rewrite Hk. unfold keymaterial_bytes.
+  cbn [app]. rewrite Hk. unfold keymaterial_bytes. rewrite (wf_not_opaque _ Hm).
   rewrite material_parse_emit; [reflexivity|assumption|].
   destruct (k_mat k); try exact I; exact Hc.
 Qed.
